@@ -1082,6 +1082,23 @@ impl LuaGenerator for ReadableLuaGenerator {
         if let Some(method) = &call.get_method() {
             self.push_char(':');
             self.push_str(method.get_name());
+
+            if call.has_method_type_instantiation() {
+                self.push_str("<<");
+
+                let last_index = call
+                    .get_method_type_instantiation()
+                    .count()
+                    .saturating_sub(1);
+                for (index, r#type) in call.get_method_type_instantiation().enumerate() {
+                    self.write_type(r#type);
+                    if index != last_index {
+                        self.push_char(',');
+                    }
+                }
+
+                self.push_str(">>");
+            }
         }
 
         self.write_arguments(call.get_arguments());
